@@ -21,8 +21,9 @@ func init() {
 			"(R7) every (re-)submission of an active task with a max delay re-arms its deadline: in prepForQueueing no condition other than activity and maxDelay != 0 decides whether executeAt is set and the task is re-inserted into the schedule (the schedule handler starts an overdue front task directly, so a stale deadline lets a queued task bypass the queue). " +
 			"(R8) the finish signal t.cancelCtx() (it releases the queue slot) is given only after Task.executing was reset and with the task lock held - otherwise the next submission of the same task is popped, found executing and dropped. " +
 			"(R9) table of who may enter a task into the schedule as overtime: only prepForQueueing (deadline of an already queued task) passes true, Schedule/Repeat/the repeat re-arm pass false, and addToSchedule sets the flag only when asked (the schedule handler starts an overtime task directly). " +
+			"(R10) Queue/QueuePrioritized/StartASAP insert (or move) the task unless it is not ready or already in the target list - membership in another list does not suppress the submission; (R11) the schedule handler sets overtime before it promotes a due task through StartASAP and clears it before it runs an overdue task directly. " +
 			"NOT decided: liveness ('every queued task runs'), timing, order under real interleavings; Task.ctx is deliberately outside the lock rule (the source documents the benign race).",
-		Rules: []ruleFn{c07R1, c07R2, c07R3, c07R4, c07R5, c07R6, c07R7, c07R8, c07R9},
+		Rules: []ruleFn{c07R1, c07R2, c07R3, c07R4, c07R5, c07R6, c07R7, c07R8, c07R9, c07R10, c07R11},
 	})
 }
 
